@@ -11,6 +11,7 @@ LOCAL_GATES = ['pyclifford/circuit.py::CliffordGate.forward#generator_local', 'p
 LOCAL_STATE = ['pyclifford/paulialg.py::PauliList.rotate_by#mask_state', 'pyclifford/circuit.py::CliffordGate.forward#generator_local_state',
                'pyclifford/circuit.py::CliffordGate.backward#generator_local_state', 'pyclifford/paulialg.py::PauliList.transform_by#mask_state',
                'pyclifford/circuit.py::CliffordGate.forward#map_local_state']
+POLY_SEL = [PA + 'PauliPolynomial.__getitem__#int', PA + 'PauliPolynomial.__getitem__#slice', PA + 'PauliPolynomial.__getitem__#mask', PA + 'PauliPolynomial.__getitem__#index']
 CASTS = [PA + 'Pauli.as_list', PA + 'Pauli.as_monomial', PA + 'Pauli.as_polynomial', PA + 'PauliList.as_polynomial', PA + 'Pauli.tokenize']
 ANY_GATE = ['pyclifford/circuit.py::CliffordGate.forward#any_state', 'pyclifford/circuit.py::CliffordGate.backward#any_state',
             'pyclifford/circuit.py::CliffordLayer.forward#state', 'pyclifford/circuit.py::CliffordLayer.backward#state']
@@ -29,7 +30,7 @@ CLASS_LAYER = [PA + 'Pauli.__matmul__#Pauli', PA + 'Pauli.__neg__', PA + 'Pauli.
                'pyclifford/circuit.py::CliffordGate.forward#map_global'] + GATES[3:] + LOCAL_GATES + LOCAL_STATE + \
               [PA + '%s.__rmul__#%s' % (c, t) for c in ('Pauli', 'PauliList') for t in ('1', 'i', 'm1', 'mi')] + \
               [PA + 'pauli#codes', PA + 'pauli#chars', PA + 'pauli#str', PA + 'PauliList.__getitem__#mask', PA + 'PauliList.__getitem__#slice', PA + 'PauliList.__getitem__#index'] + \
-              RANDOM_STATE + RANDOM_CLIFFORD[:2] + CASTS + MBACK + ['pyclifford/circuit.py::CliffordGate.copy#generator', 'pyclifford/circuit.py::CliffordGate.copy#maps', ST + 'StabilizerState.sample'] + ANY_GATE
+              RANDOM_STATE + RANDOM_CLIFFORD[:2] + CASTS + POLY_SEL + MBACK + ['pyclifford/circuit.py::CliffordGate.copy#generator', 'pyclifford/circuit.py::CliffordGate.copy#maps', ST + 'StabilizerState.sample'] + ANY_GATE
 
 # every kernel that currently has a discharged contract (their frame.* obligations are the C17 frame conditions)
 MEASURE_LEMMAS = ['ordp_parity', 'xzpartial_full', 'selacq_map', 'selacq_image', 'partnersum_acq', 'transform_preserves_acq', 'acq_diff2', 'onsite_flat', 'acq_bilinear', 'acq_antisym', 'ipow_parity', 'ordg_bits', 'acq_zero', 'ordg_acq', 'selacq_gram', 'acqsum_ext',
@@ -200,7 +201,7 @@ def C15(run):
     run.deductive(keys=[U + 'batch_dot', U + 'ipow', PA + 'PauliPolynomial.__matmul__#poly', PA + 'Pauli.__matmul__#Monomial',
                         PA + 'PauliPolynomial.__neg__', PA + 'PauliPolynomial.__rmul__', PA + 'PauliPolynomial.copy',
                         PA + 'PauliMonomial.__neg__', PA + 'PauliMonomial.__rmul__', PA + 'PauliMonomial.copy', PA + 'PauliMonomial.as_polynomial',
-                        PA + 'Pauli.as_monomial', PA + 'Pauli.as_polynomial', PA + 'PauliList.as_polynomial', PA + 'Pauli.as_list'], lemmas=['mul_assoc'])
+                        PA + 'Pauli.as_monomial', PA + 'Pauli.as_polynomial', PA + 'PauliList.as_polynomial', PA + 'Pauli.as_list'] + POLY_SEL, lemmas=['mul_assoc'])
     run.bounded_check('c15_algebra', _b().c15_algebra, Nmax=q(run, 2, 3), trees=q(run, 200, 8000))
     return 'other', ('deductive (all N, all term counts; complex numbers abstract with cmul / cneg): the product of two polynomials is the list of all '
                      'pairwise term products (string sum, exact phase, product of coefficients), Pauli @ monomial keeps the coefficient, negation / '
@@ -258,7 +259,7 @@ def C20(run):
     run.deductive(keys=[U + 'pauli_tokenize', PA + 'pauli#codes', PA + 'pauli#chars', PA + 'pauli#str',
                         PA + 'Pauli.__neg__', PA + 'PauliList.__neg__', PA + 'PauliList.__getitem__#int', PA + 'PauliList.__getitem__#mask',
                         PA + 'PauliList.__getitem__#slice', PA + 'PauliList.__getitem__#index', PA + 'Pauli.tokenize', PA + 'Pauli.as_list',
-                        PA + 'PauliMonomial.__neg__', PA + 'PauliPolynomial.__neg__'] +
+                        PA + 'PauliMonomial.__neg__', PA + 'PauliPolynomial.__neg__'] + POLY_SEL +
                   [PA + '%s.__rmul__#%s' % (c, t) for c in ('Pauli', 'PauliList') for t in ('1', 'i', 'm1', 'mi')],
                   lemmas=['toks_range', 'toks_mono', 'toks_range_c', 'toks_mono_c', 'tokens_no_prefix', 'tokens_roundtrip', 'chars_codes_agree'])
     run.bounded_check('c20_formats', _b().c20_formats, Nmax=q(run, 3, 5))
